@@ -1,6 +1,6 @@
 // Command c07 decides property C07 (logger context is exact and isolated
 // across derived loggers): every derivation program up to a depth over an
-// explicit symbol set, under eleven core families and several use orders, is run
+// explicit symbol set, under twelve core families and several use orders, is run
 // on the real zap code and every emitted entry is compared with a reference
 // model (concatenation of the field lists on the derivation path, dot-join of
 // the non-empty names).
@@ -38,7 +38,7 @@ type space struct {
 
 func (s space) wanted(steps []step) bool {
 	for _, st := range steps {
-		if (s.need == "sep" && isSepName(st.sym)) || (s.need == "slice" && isSliceSym(st.sym)) || (s.need == "fail" && isFailSym(st.sym)) {
+		if (s.need == "sep" && isSepName(st.sym)) || (s.need == "slice" && isSliceSym(st.sym)) || (s.need == "fail" && isFailSym(st.sym)) || (s.need == "refl" && isReflSym(st.sym)) {
 			return true
 		}
 	}
@@ -60,6 +60,9 @@ func (s space) String() string {
 	}
 	if s.need == "sep" {
 		return fmt.Sprintf("depth=%d x %d symbols (%s) x %s root: those of the %d sequences that contain >=1 name with a '.'", s.depth, len(s.syms), s.symLabel, r, s.size())
+	}
+	if s.need == "refl" {
+		return fmt.Sprintf("depth=%d x %d symbols (%s) x %s root: those of the %d sequences that contain >=1 *Refl symbol", s.depth, len(s.syms), s.symLabel, r, s.size())
 	}
 	if s.need == "fail" {
 		return fmt.Sprintf("depth=%d x %d symbols (%s) x %s root: those of the %d sequences that contain >=1 *NSFail/*ArrFail symbol", s.depth, len(s.syms), s.symLabel, r, s.size())
@@ -366,6 +369,17 @@ func main() {
 			spaces = append(spaces, space{d, failSet, "failing: " + symList(failSet), sug, "fail"})
 		}
 	}
+	// arguments with a reflected value (alone / inside a namespace): depth 1..3 from a plain root,
+	// depth 1..2 from a sugared root (thorough: 1..3 both)
+	reflSet := append(pick("With1", "WithNS", "Toggle"), reflSyms...)
+	for _, sug := range []bool{false, true} {
+		for d := 1; d <= 3; d++ {
+			if d == 3 && sug && !run.Thorough() {
+				continue
+			}
+			spaces = append(spaces, space{d, reflSet, "reflected: " + symList(reflSet), sug, "refl"})
+		}
+	}
 	if !run.Thorough() {
 		spaces = append(spaces, space{4, reduced8, "reduced-8: " + symList(reduced8), false, ""})
 	} else {
@@ -455,7 +469,7 @@ func main() {
 				if fam >= famJSONDyn && sp.depth > dynMaxDepth {
 					continue
 				}
-				if fam == famTeeJJ && !run.Thorough() && sp.need != "slice" && sp.need != "fail" && sp.depth > 2 {
+				if (fam == famTeeJJ || fam == famTeeJC) && !run.Thorough() && sp.need != "slice" && sp.need != "fail" && sp.need != "refl" && sp.depth > 2 {
 					continue // quick tier: tee(json,json) on the slices and failing spaces and on depth<=2 of the others
 				}
 				for k, sn := range names {
@@ -501,13 +515,14 @@ func main() {
 	for _, s := range fullSyms {
 		symNames = append(symNames, s.name)
 	}
-	for _, s := range append(append(append([]symbol(nil), sepNameSyms...), sliceSyms...), failSyms...) {
+	for _, s := range append(append(append(append([]symbol(nil), sepNameSyms...), sliceSyms...), failSyms...), reflSyms...) {
 		symNames = append(symNames, s.name+" (own space)")
 	}
 	run.Assume = []string{
 		"dynamic-level families: one AtomicLevel under the json core / under both tee branches is set to FatalLevel+1 (nothing enabled) immediately before every derive event and to Debug immediately before every log event; the oracle is exactly that of the json / tee(json,observer) family",
 		"field arguments: With1 = one Int64; With3 = Int64,String,Int64; WithNS = Namespace + Int64; WithMut = Object(mutable marshaler) + Int64; *Skip = zap.Skip(),Int64,Int64; *NilErr = Int64,zap.NamedError(k,nil),String (both no-op fields render nothing in json/console, an observer context keeps them as given; sugared calls pass them as typed Fields); Again* = With/WithLazy/WithOptions(Fields) called with the very slice object that was handed to the latest earlier field step (a fresh [Int64] if there is none) - the fields are the same, their marshalers are evaluated anew for the step; keys are unique per step except under Again*;",
 		"failing marshalers: *NSFail = Namespace, Object(o, marshaler that adds k=1 and then returns the error 'boom'), Int64; *ArrFail = Int64, Array(a, marshaler that appends 1 and then returns 'boom'), String. Reference (documented in Field.AddTo / the encoders): the value as far as it got, properly closed ({\"k\":1} / [1]), followed by \"<key>Error\":\"boom\", all inside the namespaces open at that point; the namespace stays open for the fields that follow and for descendants; an observer context keeps the Field as given",
+		"reflected values: *Refl = Reflect(v, struct{N int; S string}), Int64; *NSRefl = Namespace, Reflect(v, struct) (sugared: key/value pair, zap.Any picks Reflect); reference = the JSON object {\"N\":..,\"S\":..} under its key; an observer context keeps the Field as given. Call-site fields of a log call that carries fields: round 1 = [Int64 c, String d], rounds 2 and 3 = [Reflect c, String d] (not in the two-round deepest space of a tier), so on every three-round space every node logs at least once with a reflected call-site field",
 		"caller's-slice oracle: every []Field / []interface{} handed to With, WithLazy, WithOptions(Fields(...)), Info and Infow is compared after the call with what the caller put in (Field by Field: Key, Type, Integer, String, Interface identity; spare capacity still zero), and the derivation slices again at the end of the program (lazy cores retain them)",
 		"tee(json,json): both sinks are checked against the same reference; a marshaler is evaluated by each branch, so no evaluation count is demanded there",
 		"(continued) names from {\"\",\"a\",\"b\"} plus, in the 'names' spaces, {\".a\",\"a.\",\".\",\"a.b\"}; sugared With/WithLazy receive key/value pairs (the namespace as a typed Field)",
@@ -522,7 +537,7 @@ func main() {
 		"traces_validated_against_impl":      cases,
 		"evaluations":                        cases,
 		"distinct_nontrivial":                nontrivial,
-		"rule":                               "a program = root kind + sequence of (parent index among nodes so far, symbol); symbols = {With,WithLazy,WithOptions(Fields)} x {1 field, 3 fields, Namespace+field, mutable marshaler+field, Skip+2 fields, field+nil-error+field, Namespace+failing Object+field, field+failing Array+field, the previous step's slice object again}, Named x {'','a','b','.a','a.','.','a.b'}, Sugar/Desugar; every program of each listed space is run under the core families (8 static ones on every space; the 2 dynamic-level ones up to dynamic_level_families_up_to_depth; tee(json,json) likewise in the thorough tier, in the quick tier on the 'slices' and 'failing' spaces and on depth<=2 of the other spaces) x the use orders; states = distinct reference node states (root kind + symbols along the derivation path, i.e. field path and name); distinct_nontrivial = distinct programs with >=2 steps of which >=1 adds context; evaluations = (program, family, use order) cases executed",
+		"rule":                               "a program = root kind + sequence of (parent index among nodes so far, symbol); symbols = {With,WithLazy,WithOptions(Fields)} x {1 field, 3 fields, Namespace+field, mutable marshaler+field, Skip+2 fields, field+nil-error+field, Namespace+failing Object+field, field+failing Array+field, reflected struct+field, Namespace+reflected struct, the previous step's slice object again}, Named x {'','a','b','.a','a.','.','a.b'}, Sugar/Desugar; every program of each listed space is run under the core families (8 static ones on every space; the 2 dynamic-level ones up to dynamic_level_families_up_to_depth; tee(json,json) likewise in the thorough tier, and tee(json,console) likewise; in the quick tier these two run on the 'slices', 'failing' and 'reflected' spaces and on depth<=2 of the other spaces) x the use orders; states = distinct reference node states (root kind + symbols along the derivation path, i.e. field path and name); distinct_nontrivial = distinct programs with >=2 steps of which >=1 adds context; evaluations = (program, family, use order) cases executed",
 		"samples":                            samples,
 		"exhaustive":                         true,
 		"programs":                           programs,
